@@ -101,6 +101,46 @@ func init() {
 		}
 		close(start)
 		wg.Wait()
-		emit(map[string]any{"runs": total, "jobs": len(jobs), "goroutines": *g, "diffs": diffs})
+		// deferred rendering: an error VALUE obtained from one VM must keep its text after another VM (other language) parsed
+		// the same input — error values must not be shared between VMs
+		type ddiff struct {
+			Job   int    `json:"job"`
+			Other int    `json:"otherLang"`
+			Got   string `json:"got"`
+			Want  string `json:"want"`
+		}
+		var deferred []ddiff
+		for k := range jobs {
+			if ref[k].Ok || ref[k].Panic != "" {
+				continue
+			}
+			cfgA := cfgFromFlags(jobs[k].Flags)
+			cfgA.Lang = jobs[k].Lang
+			vmA := newVM(cfgA, parseU(jobs[k].Hi), parseU(jobs[k].Lo), jobs[k].Seeded)
+			var errA error
+			func() {
+				defer func() { _ = recover() }()
+				errA = vmA.Run(srcs[k])
+			}()
+			if errA == nil {
+				continue
+			}
+			for other := 0; other < 3; other++ {
+				if other == jobs[k].Lang {
+					continue
+				}
+				cfgB := cfgFromFlags(jobs[k].Flags)
+				cfgB.Lang = other
+				vmB := newVM(cfgB, 1, 2, true)
+				func() {
+					defer func() { _ = recover() }()
+					_ = vmB.Run(srcs[k])
+				}()
+				if got := errA.Error(); got != ref[k].Err && len(deferred) < 10 {
+					deferred = append(deferred, ddiff{k, other, got, ref[k].Err})
+				}
+			}
+		}
+		emit(map[string]any{"runs": total, "jobs": len(jobs), "goroutines": *g, "diffs": diffs, "deferred": deferred})
 	}
 }
